@@ -21,6 +21,9 @@ pub enum Src {
     Skip(Box<Src>, Expr),
     /// `v.drain(..)`: every element by value, `v` is empty afterwards
     Drain(Expr),
+    /// `for x in owner.field` (an owned Vec field, consumed): every element by value, in index order; the element is
+    /// read out through `vx_take` (group-local trusted glue: `r == v[i]`), the Vec is not used afterwards
+    Owned(Expr),
 }
 
 pub fn is_iter_chain(e: &Expr) -> bool {
@@ -157,6 +160,10 @@ fn parse_for_src(rw: &Rw, e: &Expr) -> Option<Src> {
             }
         }
     }
+    // R-ITER.into_iter.owned: `for x in owner.field` consumes an owned Vec field
+    if let Expr::Field(_) = e {
+        return Some(Src::Owned(e.clone()));
+    }
     if let Expr::Reference(r) = e {
         if r.mutability.is_some() {
             return Some(Src::IterMut((*r.expr).clone()));
@@ -194,7 +201,7 @@ impl VisitMut for WinSub {
 
 fn conds(s: &Src, idx: &syn::Ident, out: &mut Vec<Expr>) {
     match s {
-        Src::Iter(r) | Src::IterMut(r) | Src::Drain(r) => out.push(parse_quote!(#idx < #r.len())),
+        Src::Iter(r) | Src::IterMut(r) | Src::Drain(r) | Src::Owned(r) => out.push(parse_quote!(#idx < #r.len())),
         Src::Windows2(r) => out.push(parse_quote!(#idx + 1 < #r.len())),
         Src::Copied(a) | Src::Enumerate(a) | Src::Map(a, _) | Src::Skip(a, _) => conds(a, idx, out),
         Src::Zip(a, b) => {
@@ -206,7 +213,7 @@ fn conds(s: &Src, idx: &syn::Ident, out: &mut Vec<Expr>) {
 
 fn len_text(s: &Src) -> String {
     match s {
-        Src::Iter(r) | Src::IterMut(r) | Src::Windows2(r) | Src::Drain(r) => {
+        Src::Iter(r) | Src::IterMut(r) | Src::Windows2(r) | Src::Drain(r) | Src::Owned(r) => {
             let t = quote!(#r).to_string();
             t.replace(" . ", ".").replace(" [", "[").replace("[ ", "[").replace(" ]", "]").replace("& ", "&")
         }
@@ -247,6 +254,7 @@ fn item(rw: &mut Rw, s: &Src, idx: &syn::Ident, stmts: &mut Vec<Stmt>) -> Result
         Src::Iter(r) => parse_quote!(&#r[#idx]),
         Src::IterMut(r) => parse_quote!(&mut #r[#idx]),
         Src::Drain(r) => parse_quote!(#r[#idx]),
+        Src::Owned(r) => parse_quote!(vx_take(&#r, #idx)),
         Src::Copied(a) => {
             let v = item(rw, a, idx, stmts)?;
             match strip_paren(&v) {
@@ -338,6 +346,36 @@ impl VisitMut for HasContinue {
             _ => visit_mut::visit_expr_mut(self, e),
         }
     }
+}
+
+/// R-CONTINUE.guard: a top-level `if C { continue; }` of a `for` body (no else branch, nothing else in the block)
+/// becomes `if !(C) { <the rest of the body> }` - the same control flow, and the index increment that follows the
+/// body in the desugared loop is no longer skipped. Any other `continue` is left alone (and rejected by the caller).
+fn guard_continue(stmts: Vec<Stmt>, fired: &mut bool) -> Vec<Stmt> {
+    for (i, st) in stmts.iter().enumerate() {
+        if let Stmt::Expr(Expr::If(ifx), _) = st {
+            if ifx.else_branch.is_some() {
+                continue;
+            }
+            let real: Vec<&Stmt> = ifx
+                .then_branch
+                .stmts
+                .iter()
+                .filter(|s| !matches!(s, Stmt::Macro(m) if m.mac.path.is_ident("vx_at")))
+                .collect();
+            let only_continue = real.len() == 1
+                && matches!(real[0], Stmt::Expr(Expr::Continue(c), _) if c.label.is_none());
+            if only_continue {
+                let cond = &ifx.cond;
+                let rest = guard_continue(stmts[i + 1..].to_vec(), fired);
+                let mut out: Vec<Stmt> = stmts[..i].to_vec();
+                out.push(parse_quote!(if !(#cond) { #(#rest)* }));
+                *fired = true;
+                return out;
+            }
+        }
+    }
+    stmts
 }
 
 struct TryToBreak {
@@ -730,16 +768,23 @@ pub fn desugar(rw: &mut Rw, e: &Expr) -> Option<Expr> {
         }
         Expr::ForLoop(fl) => {
             let s = parse_for_src(rw, &fl.expr)?;
-            // body must not `continue` (the index increment would be skipped)
+            // body must not `continue` (the index increment would be skipped), except in the guard form
+            // `if C { continue; }` at the top level of the body, which is rewritten (R-CONTINUE.guard)
+            let mut fired = false;
+            let guarded = guard_continue(fl.body.stmts.clone(), &mut fired);
+            if fired {
+                rw.fire("R-CONTINUE.guard");
+            }
             let mut hc = HasContinue(false);
             let mut b = fl.body.clone();
+            b.stmts = guarded.clone();
             hc.visit_block_mut(&mut b);
             if hc.0 {
                 rw.err("R-ITER for: body contains `continue`".into());
                 return None;
             }
             // reuse the native loop marker key (for#n) if present as first stmt
-            let mut body_stmts = fl.body.stmts.clone();
+            let mut body_stmts = guarded;
             let mut key = None;
             if let Some(Stmt::Macro(m)) = body_stmts.first() {
                 if m.mac.path.is_ident("vx_loop") {
